@@ -359,7 +359,7 @@ impl Property for C11 {
     }
 
     fn plan(&self, tier: Tier) -> Vec<Stage<Case>> {
-        vec![Stage::random("random", tier.pick(600_000, 10_000_000), case_strategy)]
+        vec![Stage::random("random", tier.pick(1_000_000, 40_000_000), case_strategy)]
     }
 
     fn rule(&self) -> String {
@@ -367,7 +367,7 @@ impl Property for C11 {
     }
 
     fn floors(&self, tier: Tier) -> Vec<Floor> {
-        let n = tier.pick(600_000u64, 10_000_000);
+        let n = tier.pick(1_000_000u64, 40_000_000);
         vec![
             Floor { label: "query:before", min: n / 10 },
             Floor { label: "query:at-node", min: n / 10 },
